@@ -70,6 +70,13 @@ Definition QA : arith :=
   {| num := Q; a_zero := 0%Q; a_add := Qplus; a_mul := Qmult; a_div := Qdiv;
      a_ofN := fun n => inject_Z (Z.of_N n); a_lt := fun a b => negb (Qle_bool b a); a_ulps := Qeq_bool |}.
 
+(* the same exact arithmetic on normalised fractions (Qred after each operation):
+   equal values, small numerators; used to EXECUTE the exact model in the runs *)
+Definition QAred : arith :=
+  {| num := Q; a_zero := 0%Q; a_add := fun a b => Qred (Qplus a b); a_mul := fun a b => Qred (Qmult a b);
+     a_div := fun a b => Qred (Qdiv a b);
+     a_ofN := fun n => inject_Z (Z.of_N n); a_lt := fun a b => negb (Qle_bool b a); a_ulps := Qeq_bool |}.
+
 (* ------------------------------------------------------------------ scheme *)
 
 Inductive scheme (B : Type) : Type :=
